@@ -3,7 +3,9 @@
   Only property theorems and their non-vacuity examples live here.
 -/
 import Bita.Proofs.CloneSound
+import Bita.Proofs.CloneNoJunk
 import Bita.Proofs.InPlace
+import Bita.Proofs.StepOrder
 
 namespace Bita.Props.C02
 open Bita Bita.Spec
@@ -11,9 +13,10 @@ open Bita Bita.Spec
 /-- **C02.**  The archive opens to `a`, which describes `src`.  For *every* list of seed streams -
 any number, any order, any content (unrelated data, the source itself, edited copies, streams
 whose chunks collide in size, empty streams) -, every prior output, in-place or not, local or
-remote reader: a clone that reports success has produced exactly the source - or a collision of
-the truncated strong hash with a genuine source chunk (or, in place, between two chunks of the
-prior output) is exhibited.  Seeds only influence what is fetched (`Props.C06`). -/
+remote reader: a clone that reports success has produced exactly the source - the only escape
+is a collision of the truncated strong hash with a genuine source chunk; colliding junk chunks
+in the prior output are irrelevant (`Proofs.reorderOps_keep`).  Seeds only influence what is
+fetched (`Props.C06`). -/
 theorem seeds_irrelevant (H : Bytes → Bytes) (hH : ∀ x, (H x).length = 64)
     (decomp : Nat → Bytes → Nat → Option Bytes) (features : List Nat)
     (readAt : Nat → Nat → Option Bytes) (readChunks : List (Nat × Nat) → List (Option Bytes))
@@ -24,9 +27,8 @@ theorem seeds_irrelevant (H : Bytes → Bytes) (hH : ∀ x, (H x).length = 64)
     let r := Clone.run H decomp features readAt readChunks opts prior seeds
     r.result = .ok →
       (setLen r.output src.length = src ∧ (opts.blockDev = false → r.output = src)) ∨
-      Collision H a.hashLength cks ∨
-      (opts.seedOutput = true ∧ SelfCollision H a.hashLength a.config prior) :=
-  Proofs.clone_sound H hH decomp features readAt readChunks opts prior seeds a src cks hinit hd hitems
+      Collision H a.hashLength cks :=
+  Proofs.clone_sound_nojunk H hH decomp features readAt readChunks opts prior seeds a src cks hinit hd hitems
 
 /-- The engine, at the level of keyed chunks: whatever the output held before, feeding *any*
 sequence of chunks that contains every source chunk and resizing yields the source. -/
@@ -48,5 +50,13 @@ example :
     (Clone.run toyH (fun _ b _ => some b) [] (honestReadAt archive) (honestReadChunks archive)
       {} [9, 9] [[7, 7, 7, 7], src, []]).output = src := by
   decide +kernel
+
+/-- The step order of `clone_archive` that `Clone.run` transcribes (scan the output and reorder in
+place *before* any seed is used, fetch last, flush before resize), read from the source on every
+run: a reordering of the steps in the code breaks this theorem. -/
+theorem clone_steps_as_modelled :
+    Gen.cloneStepOrder = ["try_init", "banner", "pin", "open_output", "device_check", "scan_output", "reorder",
+                          "seed_stdin", "seed_files", "fetch", "flush", "resize", "verify_output"] :=
+  Proofs.clone_step_order_fact
 
 end Bita.Props.C02
